@@ -97,18 +97,19 @@ def prepare_unit(u, bdir):
         for e in ex.values():
             if e.get('kind') != 'loopfn' or e.get('unroll'):
                 continue
-            m = re.search(r'#define\s+%s_HAVOC\b((?:.*\\\n)*.*)' % re.escape(e['macro_prefix']), ttext)
-            hav = m.group(1) if m else ''
-            # follow one level of macro indirection (e.g. #define LCC_HAVOC HAVOC_COMMON)
-            for mm in re.findall(r'\b([A-Z][A-Z0-9_]{3,})\b', hav):
-                m2 = re.search(r'#define\s+%s\b((?:.*\\\n)*.*)' % re.escape(mm), ttext)
-                if m2 and mm != e['macro_prefix'] + '_HAVOC':
-                    hav += ' ' + m2.group(1)
-            missing = [nm for nm in e.get('loop_assigned_locals', []) if not re.search(r'\b%s\b' % re.escape(nm), hav)]
-            missing = [nm for nm in missing if nm not in u.get('loop_assigned_ok', [])]
-            if missing:
-                raise X.ExtractError('loop contract of %s no longer applies: the loop assigns %s which the HAVOC macro '
-                                     'does not havoc (loop-carried state outside the contract)' % (e['id'], ', '.join(missing)))
+            for gd in e.get('loop_guards') or [{'macro_prefix': e['macro_prefix'], 'assigned': e.get('loop_assigned_locals', [])}]:
+                m = re.search(r'#define\s+%s_HAVOC\b((?:.*\\\n)*.*)' % re.escape(gd['macro_prefix']), ttext)
+                hav = m.group(1) if m else ''
+                # follow one level of macro indirection (e.g. #define LCC_HAVOC HAVOC_COMMON)
+                for mm in re.findall(r'\b([A-Z][A-Z0-9_]{3,})\b', hav):
+                    m2 = re.search(r'#define\s+%s\b((?:.*\\\n)*.*)' % re.escape(mm), ttext)
+                    if m2 and mm != gd['macro_prefix'] + '_HAVOC':
+                        hav += ' ' + m2.group(1)
+                missing = [nm for nm in gd['assigned'] if not re.search(r'\b%s\b' % re.escape(nm), hav)]
+                missing = [nm for nm in missing if nm not in u.get('loop_assigned_ok', []) and not nm.startswith('lc')]
+                if missing:
+                    raise X.ExtractError('loop contract of %s no longer applies: the loop assigns %s which the HAVOC macro %s_HAVOC '
+                                         'does not havoc (loop-carried state outside the contract)' % (e['id'], ', '.join(missing), gd['macro_prefix']))
         # first template receives the entities; extra templates (e.g. second C++ TU) too
         X.render(os.path.join(u['dir'], gens[0]), ex, os.path.join(bdir, 'gen.cpp'))
     except X.ExtractError as e:
